@@ -87,6 +87,7 @@ var fnTargets = []*fnTarget{
 	{fn: "data/balance.Coin.Minus", name: "coinMinus"},
 	{fn: "data/balance.Currency.Base", name: "currencyBase"},
 	{fn: "data/balance.Currency.NewCoinFromInt", name: "newCoinFromInt"},
+	{fn: "data/balance.Coin.IsValid", name: "coinIsValid"},
 	{fn: "data/balance.Coin.LessThanCoin", name: "coinLessThan"},
 	{fn: "data/balance.Coin.LessThanEqualCoin", name: "coinLessThanEqual"},
 	{fn: "data/balance.Coin.DivideInt64", name: "coinDivideInt64"},
@@ -407,6 +408,16 @@ func (c *fctx) binary(x *ast.BinaryExpr) (string, string) {
 		_, isSliceT := t.Underlying().(*types.Slice)
 		if _, isPtr := t.(*types.Pointer); isPtr || isSliceT {
 			p := c.param(plain(x.X)+"_nil", "Bool")
+			if x.Op == token.EQL {
+				return p, "B"
+			}
+			return "(!" + p + ")", "B"
+		}
+	}
+	// s == "" / s != "" on a string: a Bool parameter of its own
+	if lit, ok := x.Y.(*ast.BasicLit); ok && lit.Kind == token.STRING && lit.Value == `""` && (x.Op == token.EQL || x.Op == token.NEQ) {
+		if bt, ok := c.typeOf(x.X).Underlying().(*types.Basic); ok && bt.Info()&types.IsString != 0 {
+			p := c.param(plain(x.X)+"_empty", "Bool")
 			if x.Op == token.EQL {
 				return p, "B"
 			}
@@ -796,6 +807,51 @@ func (c *fctx) block(stmts []ast.Stmt, rest func(string) string, ind string) str
 			}
 			return ind + "let (" + strings.Join(names, ", ") + ") := " + v + "\n" + next()
 		}
+	case *ast.SwitchStmt:
+		// `switch { case c1: …; case c2: …; default: … }` without tag, init or fallthrough: an if chain
+		if x.Tag != nil || x.Init != nil {
+			c.fail("switch with a tag or an init statement")
+			return next()
+		}
+		var chain ast.Stmt
+		var clauses []*ast.CaseClause
+		for _, cl := range x.Body.List {
+			clauses = append(clauses, cl.(*ast.CaseClause))
+		}
+		// default last (move it there if it is not)
+		var def *ast.CaseClause
+		var conds []*ast.CaseClause
+		for _, cl := range clauses {
+			if cl.List == nil {
+				def = cl
+			} else {
+				conds = append(conds, cl)
+			}
+			for _, b := range cl.Body {
+				if br, ok := b.(*ast.BranchStmt); ok && br.Tok == token.FALLTHROUGH {
+					c.fail("switch with fallthrough")
+					return next()
+				}
+			}
+		}
+		if def != nil {
+			chain = &ast.BlockStmt{List: def.Body}
+		}
+		for i := len(conds) - 1; i >= 0; i-- {
+			cond := conds[i].List[0]
+			for _, more := range conds[i].List[1:] {
+				cond = &ast.BinaryExpr{X: cond, Op: token.LOR, Y: more}
+			}
+			ifs := &ast.IfStmt{Cond: cond, Body: &ast.BlockStmt{List: conds[i].Body}}
+			if chain != nil {
+				ifs.Else = chain
+			}
+			chain = ifs
+		}
+		if chain == nil {
+			return next()
+		}
+		return c.block(append([]ast.Stmt{chain}, stmts[1:]...), rest, ind)
 	case *ast.RangeStmt:
 		// `for _, item := range xs { … }` over a slice of integers / booleans, the body assigning
 		// to variables of the enclosing function and neither returning nor leaving the loop:
